@@ -298,7 +298,35 @@ func runREC(c *Ctx) []Obligation {
 			continue
 		}
 		for _, cyc := range cycles {
-			f0, names := smallest(cyc)
+			// A cycle is identified by its members without the private helpers that only
+			// members call (unexported, declared, never used as a value): statements of an
+			// audited cycle moved into such a helper are the same recursion.
+			inCyc := map[*callgraph.Node]bool{}
+			for _, nd := range cyc {
+				inCyc[nd] = true
+			}
+			var core []*callgraph.Node
+			for _, nd := range cyc {
+				contract := false
+				if obj, ok := nd.Func.Object().(*types.Func); ok && obj != nil && !obj.Exported() && nd.Func.Parent() == nil && len(nd.In) > 0 {
+					contract = true
+					for _, e := range nd.In {
+						if !inCyc[e.Caller] {
+							contract = false
+						}
+					}
+					if _, refs := c.CallsTo(func(string) bool { return true }, obj); len(refs) > 0 {
+						contract = false
+					}
+				}
+				if !contract {
+					core = append(core, nd)
+				}
+			}
+			if len(core) == 0 {
+				core = cyc
+			}
+			f0, names := smallest(core)
 			// only cycles that involve kernel/LVal-typed functions
 			relc := false
 			for _, nd := range cyc {
